@@ -62,6 +62,19 @@ def c16_main(tier, only=None):
                     continue
                 shapes.append(('hx_dates', [kind, custom, ts], 'dates/k%d/f%d/t%d' % (kind, custom, ts)))
     shapes.append(('hx_pid', [0, 0], 'pid/changes between messages'))
+    # messages created at an instant with a fraction of a second (the clock is the harness' own): the second is not rounded up
+    for base in (1506532648, 86399, 1609459199):
+        for ms in (0, 250, 499, 500, 750, 999):
+            if tier == 'quick' and base != 86399 and ms not in (500, 999):
+                continue
+            shapes.append(('hx_clock', [base, ms], 'clock/t%d/ms%d' % (base, ms)))
+    # constant fields with empty text keep their place (and their automatic separator)
+    for sq in ((13,), (1, 13, 4), (4, 13), (13, 13, 5), (2, 13, 1)):
+        code = sum(k << (4 * i) for i, k in enumerate(sq))
+        for sep in (0, 1):
+            shapes.append(('hx_creator', [code, sep], 'creator/%s/sep%d' % ('-'.join(map(str, sq)), sep)))
+            if len(sq) <= 2:
+                shapes.append(('hx_format', [code, sep], 'format/%s/sep%d' % ('-'.join(map(str, sq)), sep)))
     if only:
         shapes = [s for s in shapes if re.search(only, s[2])]
     u = E2Unit('log_C16', os.path.join(HERE, 'w_fmt.cpp'), lib_srcs=lib_srcs(), shapes=shapes, timeout=600 if tier == 'quick' else 1800, conc_cap=300,
